@@ -282,6 +282,17 @@ func ruleText(n *SNode) string {
 	if n.EnumRef != "" {
 		rr = append(rr, "enum: "+n.EnumRef)
 	}
+	if len(n.OrAlts) > 0 {
+		var alts []string
+		for _, a := range n.OrAlts {
+			if strings.HasPrefix(a, "@") {
+				alts = append(alts, "\""+a+"\"")
+			} else {
+				alts = append(alts, "{type: \""+a+"\"}")
+			}
+		}
+		rr = append(rr, "or: ["+strings.Join(alts, ", ")+"]")
+	}
 	if len(n.AllOf) == 1 {
 		rr = append(rr, "allOf: \""+n.AllOf[0]+"\"")
 	} else if len(n.AllOf) > 1 {
